@@ -317,8 +317,8 @@ def execute_xy(scenario):
             env2, *_ = xy.make_env(sc2)
             other = xy.run_episode(env2, scenario["actions"], np_seed=scenario["np_seed"])
         except Exception as e:
-            return {"violations": [], "digest": core.digest(["refused", type(e).__name__]), "probes": {"build_refused": 1}, "faults": {},
-                    "stats": {"ops": 1}, "trace": "xy-refused:" + type(e).__name__, "nontrivial": False}
+            return {"violations": [], "digest": core.digest(["refused", core.exc_name(e)]), "probes": {"build_refused": 1}, "faults": {},
+                    "stats": {"ops": 1}, "trace": "xy-refused:" + core.exc_name(e), "nontrivial": False}
     a = [canon(r) for r in base if r.get("now") is not None and pd.Timestamp(r["now"]) <= cut]
     b = [canon(r) for r in other if r.get("now") is not None and pd.Timestamp(r["now"]) <= cut]
     stats["steps"] = len(base)
